@@ -11,8 +11,8 @@ PROP = dict(
     ],
     gen=dict(module="GenStreams", cfg=dict(quick="GenStreams_quick.cfg", thorough="GenStreams_thorough.cfg"),
              workers=1, timeout=1500),
-    level_text="Streams.tla models request.go faithfully as a state machine (scripted underlying stream with sticky terminal "
-               "condition, bufio-backed peeking wrappers nested per HasBody call, actions HasBody / Read(k) / Close in any order, "
+    level_text="Streams.tla models request.go faithfully as a state machine (scripted underlying stream: chunks, zero-length reads, one-shot conditions in the middle, sticky "
+               "terminal condition, failing Close; bufio-backed peeking wrappers nested per HasBody call, actions HasBody / Read(k) / Close in any order, "
                "nil body) and states C17 declaratively over the caller-visible history only (HasBody answer formula and repeat "
                "agreement, delivered bytes are the next bytes of the original, errors only at the end and equal to the original "
                "terminal condition, reads after close fail, the underlying stream is closed exactly once, no panic). TLC checks "
@@ -36,10 +36,10 @@ PROP = dict(
          "and read sizes around the bufio buffer size. Non-trivial: length not declared, >=1 HasBody and >=1 Read/Close; "
          "distinct by hash of the case.",
     assumptions=COMMON_ASSUME + [
-        "the underlying stream has a sticky terminal condition (after an error/EOF every further Read returns it again); a one-shot "
-        "error is consumed by bufio.Peek and is outside the model",
+        "PeekSwallowsCondition: a probing HasBody issued exactly where a one-shot (non-repeating) condition is due answers false and uses "
+        "it up (bufio.Peek drops the error); modelled as the code behaves",
         "the underlying stream makes fewer than 100 consecutive empty reads (bufio gives up with io.ErrNoProgress)",
-        "after Close the underlying stream fails reads (as http bodies do) and its Close returns nil",
+        "after Close the underlying stream fails reads (as http bodies do), also when its Close returned an error",
         "ZeroLenReadAfterClose: a Read with an empty buffer after Close may return (0, nil): it cannot return stale data",
     ],
     exhaustive=False,
